@@ -159,6 +159,7 @@ type (
 		Vars   []SBinder
 		Body   SExpr
 		Pats   []SExpr // optional triggers: forall x int {f(x), g(x)} :: body
+		AltPats [][]SExpr // further alternative trigger groups: forall x int {f(x)} {g(x)} :: body
 	}
 	SLet struct {
 		Name string
@@ -308,9 +309,22 @@ func (sp *specParser) expr() SExpr {
 			}
 			sp.expectOp("}")
 		}
+		var alts [][]SExpr
+		for sp.isOp("{") {
+			sp.next()
+			var g []SExpr
+			for !sp.isOp("}") {
+				g = append(g, sp.expr())
+				if sp.isOp(",") {
+					sp.next()
+				}
+			}
+			sp.expectOp("}")
+			alts = append(alts, g)
+		}
 		sp.expectOp("::")
 		body := sp.expr()
-		return &SQuant{Forall: forall, Vars: vars, Body: body, Pats: pats}
+		return &SQuant{Forall: forall, Vars: vars, Body: body, Pats: pats, AltPats: alts}
 	}
 	if sp.isKw("let") {
 		sp.next()
